@@ -191,6 +191,92 @@ fn all_small_bdds(max_n: usize) -> Vec<String> {
     v
 }
 
+/// single valuation as a chain (what `Bdd::from(BddValuation)` builds), written without the library
+fn valuation_triples(bits: &[bool]) -> Vec<(usize, usize, usize)> {
+    let n = bits.len();
+    let mut nodes = vec![(n, 0, 0), (n, 1, 1)];
+    for i in (0..n).rev() { let r = nodes.len() - 1; nodes.push(if bits[i] { (i, 0, r) } else { (i, r, 0) }); }
+    nodes
+}
+/// negation of a diagram given as triples: swap the links into the terminals (constants swapped)
+fn negate_triples(t: &[(usize, usize, usize)]) -> Vec<(usize, usize, usize)> {
+    let n = t[0].0;
+    if t.len() == 1 { return vec![(n, 0, 0), (n, 1, 1)]; }
+    if t.len() == 2 { return vec![(n, 0, 0)]; }
+    let f = |p: usize| if p == 0 { 1 } else if p == 1 { 0 } else { p };
+    t.iter().enumerate().map(|(i, (v, l, h))| if i < 2 { (*v, *l, *h) } else { (*v, f(*l), f(*h)) }).collect()
+}
+/// `x_first | (cube on most of the later levels)` resp. with `&`: a very short and a very long path
+fn short_long_triples(rng: &mut Rng64, n: usize) -> Vec<(usize, usize, usize)> {
+    let first = rng.below(3.min(n as u64 - 1)) as usize;
+    let mut nodes = vec![(n, 0, 0), (n, 1, 1)];
+    let mut levels: Vec<usize> = (first + 1..n).filter(|_| !rng.chance(1, 10)).collect();
+    if levels.is_empty() { levels.push(n - 1); }
+    for v in levels.iter().rev() { let r = nodes.len() - 1; nodes.push(if rng.bool() { (*v, 0, r) } else { (*v, r, 0) }); }
+    let r = nodes.len() - 1;
+    nodes.push(if rng.bool() { (first, r, 1) } else { (first, 1, r) });
+    nodes
+}
+/// canonical diagram of a random function of a few variables placed on random levels of `n` variables
+fn gap_triples(rng: &mut Rng64, n: usize, max_m: usize) -> Vec<(usize, usize, usize)> {
+    let m = (1 + rng.below(max_m as u64) as usize).min(n);
+    let mut pos: Vec<usize> = Vec::new();
+    while pos.len() < m { let p = rng.below(n as u64) as usize; if !pos.contains(&p) { pos.push(p); } }
+    pos.sort();
+    let tt = random_tt(rng, m);
+    canon_triples(m, &tt).into_iter().map(|(v, l, h)| (if v == m { n } else { pos[v] }, l, h)).collect()
+}
+
+/// Wide comparator stream: Bdds over >= 52 variables whose exact counts are equal or differ by ONE
+/// (far below the rounding step of an f64 at that magnitude), as few-node diagrams.
+fn gen_wide_cmp(thorough: bool, rng: &mut Rng64, out: &mut Out) {
+    for n in [52usize, 53, 54, 55, 63, 64, 65, 100, 1000] {
+        let tt = vec![(n, 0, 0), (n, 1, 1)];
+        let ff = vec![(n, 0, 0)];
+        let zeros = valuation_triples(&vec![false; n]);
+        let not_zeros = negate_triples(&zeros);                      // 2^n - 1 models
+        let t = |x: &Vec<(usize, usize, usize)>| fmt_triples(x);
+        let mut emit = |a: String, b: String, c: String, out: &mut Out| run("C18.cmp", &[a, b, c], out);
+        // constants, a single valuation and its negation: counts 2^n, 2^n - 1, 1, 0
+        emit(t(&tt), t(&not_zeros), t(&zeros), out);
+        emit(t(&not_zeros), t(&tt), t(&ff), out);
+        emit(t(&zeros), t(&ff), t(&not_zeros), out);
+        emit(t(&ff), t(&zeros), t(&tt), out);
+        for _ in 0..(if thorough { 40 } else { 5 }) {
+            let bits: Vec<bool> = (0..n).map(|_| rng.bool()).collect();
+            let val = valuation_triples(&bits);
+            let not_val = negate_triples(&val);
+            let bits2: Vec<bool> = (0..n).map(|_| rng.bool()).collect();
+            let val2 = valuation_triples(&bits2);
+            // two different single valuations / their negations: equal counts, different functions
+            emit(t(&val), t(&val2), t(&not_val), out);
+            emit(t(&not_val), t(&negate_triples(&val2)), t(&tt), out);
+            // f, f minus one satisfying valuation, f plus one falsifying valuation (by the library, printed by the harness)
+            let f = if rng.bool() { short_long_triples(rng, n) } else { gap_triples(rng, n, 5) };
+            let fb = bdd_from_triples(&f);
+            if fb.is_false() || fb.is_true() { continue; }
+            let inside = fb.sat_witness().unwrap();
+            let outside = fb.not().sat_witness().unwrap();
+            let minus = fb.and_not(&Bdd::from(inside));
+            let plus = fb.or(&Bdd::from(outside));
+            emit(fmt_bdd(&minus), t(&f), fmt_bdd(&plus), out);
+            emit(fmt_bdd(&plus), fmt_bdd(&minus), t(&f), out);
+            emit(t(&f), fmt_bdd(&minus), t(&negate_triples(&f)), out);
+            // equal counts, different functions: two literals, a literal and its negation
+            let (i, j) = (rng.below(n as u64) as usize, rng.below(n as u64) as usize);
+            let lit = |v: usize, b: bool| vec![(n, 0, 0), (n, 1, 1), if b { (v, 0, 1) } else { (v, 1, 0) }];
+            emit(t(&lit(i, true)), t(&lit(j, true)), t(&lit(i, false)), out);
+            // half the space plus / minus one valuation: 2^(n-1) + 1 vs 2^(n-1) vs 2^(n-1) - 1
+            let lb = bdd_from_triples(&lit(i, true));
+            let lo = lb.not().sat_witness().unwrap();
+            let li = lb.sat_witness().unwrap();
+            emit(fmt_bdd(&lb.or(&Bdd::from(lo))), t(&lit(i, true)), fmt_bdd(&lb.and_not(&Bdd::from(li))), out);
+            // different variable counts next to each other (strict / implies must be None)
+            emit(t(&tt), t(&vec![(n + 1, 0, 0), (n + 1, 1, 1)]), t(&not_zeros), out);
+        }
+    }
+}
+
 pub fn gen(tier: Tier, rng: &mut Rng64, out: &mut Out) {
     let thorough = tier == Tier::Thorough;
     let ops = base_ops(3);
@@ -266,6 +352,8 @@ pub fn gen(tier: Tier, rng: &mut Rng64, out: &mut Out) {
         };
         run("C18.cmp", &trip, out);
     }
+    // --- wide operands: exact counts equal or one apart at n >= 52
+    gen_wide_cmp(thorough, rng, out);
 }
 
 fn main() { harness_main(gen, run) }
